@@ -105,6 +105,8 @@ theorem handshake_cases (ra : Ra) (ph : Nat) (p : Pkt) :
       simp only
       split
       · exact Or.inl ⟨rfl, _, rfl⟩
+      split
+      · exact Or.inl ⟨rfl, _, rfl⟩
       · cases hc : credit d.gi.accounts ra.bal with
         | none => exact Or.inl ⟨rfl, _, rfl⟩
         | some bal' =>
@@ -128,6 +130,24 @@ theorem handshake_cases (ra : Ra) (ph : Nat) (p : Pkt) :
                 simp only [Bool.or_eq_true, bne_iff_ne, ne_eq, not_or, Bool.not_eq_true, Decidable.not_not] at hs
                 exact ⟨hs.1, hs.2⟩
 
+/-- a handshake succeeds on a native-denom rollapp only when no metadata of its IBC denom exists yet -/
+theorem handshake_ok_md {ra : Ra} {ph : Nat} {d : GBData} (h : (handshake ra ph (.gb d)).2 = .ok)
+    (hd : d.gi.denom.isSet = true) : ra.md = false := by
+  revert h
+  unfold handshake
+  simp only
+  cases hv : validate d ra.gi with
+  | some e => intro h; exact absurd h (by simp)
+  | none =>
+    simp only
+    split
+    · intro h; exact absurd h (by simp)
+    split
+    · intro h; exact absurd h (by simp)
+    · rename_i hm
+      intro _
+      simpa [hd] using hm
+
 theorem handshake_err_unchanged {ra : Ra} {ph : Nat} {p : Pkt} (h : (handshake ra ph p).2 ≠ .ok) : (handshake ra ph p).1 = ra := by
   rcases handshake_cases ra ph p with ⟨h1, _⟩ | ⟨_, _, _, _, _, h2, _⟩
   · exact h1
@@ -136,19 +156,23 @@ theorem handshake_err_unchanged {ra : Ra} {ph : Nat} {p : Pkt} (h : (handshake r
 -- ---------------------------------------------------------------- the IRO plan steps
 
 /-- the record an accepted `MsgCreatePlan` writes -/
-def planned (now : Nat) (ra : Ra) (alloc : Int) (dur : Nat) (te : Bool) : Ra :=
+def planned (now : Nat) (ra : Ra) (alloc : Int) (dur : Nat) (te : Bool) (start : Option Nat) : Ra :=
   { ra with gi := { ra.gi with sealed := true },
-            preLaunch := some (if te then planPreLaunch now dur else now + tenYears),
+            preLaunch := some (if te then planPreLaunch (planStart now start) dur else now + tenYears),
             plan := some (alloc, false), te := te,
-            pstart := (if te then some now else none), pdur := dur }
+            pstart := (if te then some (planStart now start) else none), pdur := dur }
 
 /-- shape of an accepted `plan` step, whatever the trading flag -/
-theorem stepPlan_ok {s : St} {r : Nat} {owner : Bool} {alloc : Int} {dur : Nat} {te : Bool}
-    (h : (stepPlan s r owner alloc dur te).2 = .ok) :
+theorem stepPlan_ok {s : St} {r : Nat} {owner : Bool} {alloc : Int} {dur : Nat} {te : Bool} {start : Option Nat}
+    (h : (stepPlan s r owner alloc dur te start).2 = .ok) :
     ∃ ra, getRa s r = some ra ∧ owner = true ∧ ra.plan = none ∧ ra.launched = false ∧ ra.gi.sealed = false ∧
-      stepPlan s r owner alloc dur te = (setRa s (planned s.now ra alloc dur te), .ok) := by
+      (start.isSome = true → te = true) ∧
+      stepPlan s r owner alloc dur te start = (setRa s (planned s.now ra alloc dur te start), .ok) := by
   revert h
   unfold stepPlan
+  split
+  · intro h; exact absurd h (by simp)
+  rename_i hvb
   cases hg : getRa s r with
   | none => intro h; exact absurd h (by simp)
   | some ra =>
@@ -157,7 +181,7 @@ theorem stepPlan_ok {s : St} {r : Nat} {owner : Bool} {alloc : Int} {dur : Nat} 
     all_goals intro h
     all_goals first
       | (simp at h; done)
-      | (refine ⟨ra, rfl, ?_, ?_, ?_, ?_, ?_⟩ <;> simp_all [planned])
+      | (refine ⟨ra, rfl, ?_, ?_, ?_, ?_, ?_, ?_⟩ <;> simp_all [planned])
 
 /-- the record an accepted `MsgEnableTrading` writes -/
 def enabled (now : Nat) (ra : Ra) : Ra :=
@@ -196,8 +220,8 @@ theorem stepEnable_err {s : St} {r : Nat} {owner : Bool} (h : (stepEnable s r ow
     | exact absurd rfl h
 
 /-- a refused `plan` step changes nothing -/
-theorem stepPlan_err {s : St} {r : Nat} {owner : Bool} {alloc : Int} {dur : Nat} {te : Bool}
-    (h : (stepPlan s r owner alloc dur te).2 ≠ .ok) : stepPlan s r owner alloc dur te = (s, .err) := by
+theorem stepPlan_err {s : St} {r : Nat} {owner : Bool} {alloc : Int} {dur : Nat} {te : Bool} {start : Option Nat}
+    (h : (stepPlan s r owner alloc dur te start).2 ≠ .ok) : stepPlan s r owner alloc dur te start = (s, .err) := by
   revert h
   unfold stepPlan
   repeat' split
